@@ -1,6 +1,7 @@
 #![allow(non_camel_case_types, non_snake_case, dead_code)]
 #[tarpc::service]
-pub trait Rej27 {
-    async fn new(a0: i32, a1: i32) -> String;
+pub trait Rej30 {
+    async fn a__b(a0: i32, a1: String);
+    async fn a_b() -> String;
 }
 fn main() {}
